@@ -14,10 +14,12 @@ props = [json.loads(l) for l in open(os.path.join(ROOT, "properties.jsonl"))]
 na_path = os.path.join(ROOT, "not_applicable.json")
 na = json.load(open(na_path)) if os.path.exists(na_path) else {}
 checks, not_app, engines = [], [], {}
+# only checks validated on the clean tree (3 seeds, timing, mutation self-test) are registered
+ready = set(open(os.path.join(ROOT, "ready.txt")).read().split())
 for p in props:
     pid = p["id"]
     f = os.path.join(ROOT, "vf", "props", pid.lower() + ".py")
-    if not os.path.exists(f):
+    if not os.path.exists(f) or pid not in ready:
         not_app.append(dict(property_id=pid, reason=na.get(pid, "check not built yet in this round; designed in DESIGN.md §5 " + pid)))
         continue
     mod = importlib.import_module("vf.props." + pid.lower())
